@@ -233,8 +233,8 @@ func parseDefinition(cur *Cursor) (def definition, err error) {
 	// читаем тип после знака =
 	//                                     ↓ - курсор здесь
 	// ipPort#d433ad73 ipv4:int port:int = IpPort;
-	if cur.IsNext("Vector") {
-		cur.Skip(1) // skip <
+	// (bracket is a part of the mark: a type can have a name which only starts with this word, VectorClock)
+	if cur.IsNext("Vector<") {
 		def.EqType, err = cur.ReadAt('>')
 		if err != nil {
 			return def, fmt.Errorf("parse def eq type: %w", err)
@@ -300,11 +300,10 @@ func parseParam(cur *Cursor) (param Parameter, err error) {
 	}
 
 	// читаем тип параметра
-	if cur.IsNext("Vector") {
+	if cur.IsNext("Vector<") {
 		//                               ↓ - курсор здесь
 		// correct_answers:flags.0?Vector<bytes> foo:bar
 
-		cur.Skip(1) // skip <
 		param.IsVector = true
 		param.Type, err = cur.ReadAt('>')
 		if err != nil {
